@@ -20,7 +20,8 @@ import (
 // dispatch pool D (DESIGN §4). Patterns with interceptor rules are only
 // meaningful in I1/I2; in I0 the same text is a regexp, which is fine too.
 var poolStatic = []string{"/", "/a", "/ab", "/abc", "/b", "/a/b", "/a/b/c", "a"}
-var poolNamed = []string{"/{x}", "/{x}/b", "/{x}/bc", "/a/{x}", "/a/{x}/{y}", "/a/{x}/{y}/c", "/a/{x}-{y}", "/a/{x}-{y}.h", "/a{x}", "/{-x}/b", "/a/{-x}/{y}", "/a/{x}/", "/a/{z}/bd", "/{xy}/c", "/a/{xy}/d", "/a/{x}/bc", "{x}.h"}
+var poolNamed = []string{"/{x}", "/{x}/b", "/{x}/bc", "/a/{x}", "/a/{x}/{y}", "/a/{x}/{y}/c", "/a/{x}-{y}", "/a/{x}-{y}.h", "/a{x}", "/{-x}/b", "/a/{-x}/{y}", "/a/{x}/", "/a/{z}/bd", "/{xy}/c", "/a/{xy}/d", "/a/{x}/bc", "{x}.h",
+	"/a/{x}/b}", "/a}{x}"} // a '}' in literal text: after a parameter's suffix, and right before a parameter
 var poolRegexp = []string{`/{x:\d+}`, `/a/{x:\d+}`, `/a/{x:\d+}.h`, `/a/{x:\d*}`, `/a/{x}/{y:\d+}`, `/a/{x:[ab]+}/b`, `/a/{-x:\d+}/c`, `/a/{x:\d+}/bc`, `/a/{x:\d}/q`, `/a/{x:\d+}/bd`, `/a/{-x:a|b}/c`, `/a/{x:a|ab}`,
 	// rules with more than one admissible capture before their literal: lazy quantifier, ordered alternation (leftmost-first, never widened)
 	`/{x:.+?}/b`, `/a/{x:a|ab}b`,
